@@ -269,7 +269,10 @@ func Main(args []string) error {
 	names := []string{"can", "man", "cot", "soban", "bell", "ant", "bantam", "zed", "anna", "tin"}
 	for i := 0; i < *nrand; i++ {
 		n := r.Intn(12)
-		perm := r.Perm(20)
+		if r.Intn(6) == 0 {
+			n = 17 + r.Intn(24) // long lists: thunder works through them in chunks
+		}
+		perm := r.Perm(48)
 		l := make([]Item, n)
 		for j := range l {
 			l[j] = Item{Key: fmt.Sprintf("k%d", perm[j]+1), Name: names[r.Intn(len(names))], Rank: int64(r.Intn(4))}
